@@ -204,6 +204,23 @@ CHECKS["C07"] = dict(level=MC, design="DESIGN.md section 6, C07",
          "passes, and that the InsertionContext of each invocation names the original block, that offset and the block's "
          "function (None outside functions).")
 
+CHECKS["C17"] = dict(level=TV, design="DESIGN.md section 6, C17",
+    note="Bounds: x86-64 ELF/PE, IA32 PE, ARM64; 0..9 (quick) / 0..16 (thorough) arguments where one argument (first, last "
+         "register, first stack slot, last) is a full-range integer [-2^63, 2^64) or a symbol and the others are integers in "
+         "[0, 2^15); default conventions and custom ones (0/1/3 registers, alignment 2^2..2^5, caller/callee cleanup, shadow "
+         "space of 0..64 words); stack_adjustment any non-negative word multiple or None; initial stack pointer symbolic. The "
+         "symbolic CPU interprets the EMITTED TEXT (placeholder tokens for symbolic numbers); what the assembler makes of it is "
+         "checked on the concrete replays only (one z3 witness per path: real assembler must accept the text, capstone-decoded "
+         "immediates must equal the text-level ones). Three genuine defects are known findings, two were fixed. Trusted: symx, "
+         "the text grammar and CPU in harness/calls.py, z3.",
+    technique="symbolic execution of the real CallPatch.get_asm (symx) producing tokenised assembly, interpreted by a z3-backed "
+              "symbolic CPU; translation validation of witnesses through the real assembler and capstone",
+    text="For all argument values, prologue adjustments and convention parameters z3 decides that register i holds argument i, "
+         "stack argument j sits at SP+shadow+j*word at the call, the call executes with SP aligned to the convention's "
+         "alignment, SP is restored afterwards (callee-cleanup modelled), nothing is written at or above the initial SP, "
+         "argument callables receive the insertion context, and the emitted text is inside the accepted grammar (ARM64 "
+         "movz/movk chunks rebuild every 64-bit value).")
+
 NOT_YET = "check not built yet in this round (planned, see DESIGN.md section 6)"
 
 manifest = {
